@@ -29,7 +29,7 @@ fn tokens() -> Vec<(&'static str, Tk)> {
         ("\";\"", Plain), ("\\;", Plain),
         // an escaped escape character: the pair is one literal, what follows is a token again
         ("\\\\", Plain), ("__", Plain), ("\\_", Plain), ("_\\", Plain),
-        ("[Red]", Plain), ("[Color3]", Plain), ("[>100]", Plain), ("[<=0]", Plain), ("[$-409]", Plain), ("[$\u{20ac}-407]", Plain), ("[$USD]", Plain), ("[Magenta]", Plain),
+        ("[Red]", Plain), ("[Color3]", Plain), ("[>100]", Plain), ("[<=0]", Plain), ("[$-409]", Plain), ("[$\u{20ac}-407]", Plain), ("[$USD]", Plain), ("[Magenta]", Plain), ("[$UAH]", Plain), ("[$-en-US]", Plain), ("[$z\u{142}-415]", Plain),
         ("/", Plain), (":", Plain), ("-", Plain), (" ", Plain), (";", Sep),
     ]
 }
@@ -138,7 +138,8 @@ fn build(ch: &mut Chooser, fmt: &'static str) -> FCase {
     let sk = style_kinds();
     let k = ch.choose("style-kind", sk.len());
     let (label, id, code, class) = sk[k];
-    let values = [44197.0f64, 0.5, 44197.75, 1.0, 60.0, -1.5];
+    // the last one is 00:00:05 as a fraction of a day: small magnitudes are written in scientific notation
+    let values = [44197.0f64, 0.5, 44197.75, 1.0, 60.0, -1.5, 5.787037037037037e-5];
     let v = values[ch.choose("value", values.len())];
     let is1904 = ch.flag("date1904");
     // style table: the wanted XF sits at index `pos` among decoys
@@ -166,7 +167,9 @@ fn build(ch: &mut Chooser, fmt: &'static str) -> FCase {
             let encn = ch.choose("xlsx.number-encoding", 3); // untyped, t="n", formula result
             let prefix = ch.flag("xlsx.prefix");
             let omit = ch.flag("xlsx.general-xf-without-numFmtId");
-            let mut c = xlsx::XCell::new(1, 1, xlsx::XVal::Num(format!("{v}")));
+            // Excel writes small magnitudes as 5.787037037037037E-5 (upper-case E), other writers with a lower-case e
+            let text = if v.abs() < 1e-4 && v != 0.0 { let t = format!("{v:E}"); if k % 2 == 0 { t } else { t.to_lowercase() } } else { format!("{v}") };
+            let mut c = xlsx::XCell::new(1, 1, xlsx::XVal::Num(text));
             c.style = Some(style);
             if encn == 2 { c.formula = Some(xlsx::XFormula::Plain("1+1".into())); }
             let book = xlsx::XBook { sheets: vec![xlsx::XSheet::new("S", vec![c])], styles: Some(xlsx::XStyles { num_fmts: fmts.iter().map(|(a, b)| (*a as u32, b.clone())).collect(), cell_xfs: xfs.iter().map(|x| *x as u32).collect(), cell_style_xfs: vec![14, 0], omit_general_numfmt: omit }), date1904: Some(is1904), ..Default::default() };
@@ -252,7 +255,7 @@ fn run_case(rep: &Report, ch: &mut Chooser, fmt: &'static str, local: &mut Vec<(
 
 pub fn check(rep: &Report) {
     let t = crate::thorough(&rep.tier);
-    rep.rule("(a) every sequence of <= 3 (thorough 5) tokens over a 58-token alphabet of the number-format grammar (digit placeholders, General/@, date/time tokens in both cases, AM/PM, elapsed [h] [mm] [ss], quoted literals incl. ones ending in _ or \\, backslash and underscore escapes, colour/condition/locale/currency brackets, separators, ';') through the real classifier vs a token-level reference (sequences mixing General/@ with date tokens or using an elapsed token after a date token are outside the grammar and skipped); all built-in ids 0-22, 37-49; (b) full product of 14 style kinds x 5 values x 1900/1904 x XF position x style index out of range x every number encoding (xlsx untyped/t=n/formula; xls NUMBER/RK forms/MULRK/FORMULA; xlsb Real/RK forms/FmlaNum) x prefix, end to end; non-trivial = non-default choice / non-empty sequence");
+    rep.rule("(a) every sequence of <= 3 (thorough 5) tokens over a 61-token alphabet of the number-format grammar (digit placeholders, General/@, date/time tokens in both cases, AM/PM, elapsed [h] [mm] [ss], quoted literals incl. ones ending in _ or \\, backslash and underscore escapes, colour/condition/locale/currency brackets, separators, ';') through the real classifier vs a token-level reference (sequences mixing General/@ with date tokens or using an elapsed token after a date token are outside the grammar and skipped); all built-in ids 0-22, 37-49; (b) full product of 14 style kinds x 7 values x 1900/1904 x XF position x style index out of range x every number encoding (xlsx untyped/t=n/formula; xls NUMBER/RK forms/MULRK/FORMULA; xlsb Real/RK forms/FmlaNum) x prefix, end to end; non-trivial = non-default choice / non-empty sequence");
     rep.assume("locale-dependent built-in ids (23-36, 50-58) are not asserted; an integer-valued RK int with a non-date style may read as Int");
     classifier_sweep(rep, if t { 5 } else { 3 });
     let stats = Mutex::new(Stats::default());
